@@ -80,6 +80,11 @@ func (g *siteGen) body(r *Resp) {
 	r.Kind = []string{"text", "bin", "text", "bin", "empty"}[g.pick("kind", 5)]
 	r.BodySeed = int64(g.pick("bodyseed", 1<<20))
 	switch {
+	case g.pm("bigtrunc", g.mix.BigText/2+1):
+		// a text body that is cut short only after more than 2 MiB went through: the spool buffer of ProcessBody is
+		// already on disk when the read fails (the truncation point is the middle of the wire bytes)
+		r.Kind, r.Size = "text", 5<<20+g.pick("bigtruncextra", 1<<20)
+		r.forceTruncate = true
 	case g.pm("bigtext", g.mix.BigText):
 		r.Kind, r.Size = "text", 2<<20+1+g.pick("bigextra", 1<<20)
 	case g.pm("huge", g.mix.Huge):
@@ -189,6 +194,9 @@ func (g *siteGen) leaf() string {
 		if g.mix.NoPenalty && r.FailStatus == 429 {
 			r.FailStatus = 502
 		}
+	}
+	if r.forceTruncate && r.Status == 200 && r.Framing != "eof" && !r.Gzip {
+		r.Fault, r.FailFirst, r.FailStatus = "truncate", 0, 0
 	}
 	if r.Fault == "truncate" && g.mix.KeepRejectedWhole && (r.CFHeader != "" || slices.Contains(g.mix.Discard, r.Status)) {
 		r.Fault = ""
